@@ -234,30 +234,34 @@ example : hashIndex 0x80000000 3 = 2 ∧ hashIndex 0xFFFFFFFF 3 = 1 ∧ refHashI
 
 /-! ## 6. RoundRobin -/
 
-/-- For EVERY number of calls of a fresh RoundRobin with `ChunkSize ≥ 1` on a fixed non-empty list, call number `j`
-(from 0) returns `parts[(j / ChunkSize) % |parts|]`: runs of ChunkSize calls on one partition, cycling through the list
-in order.  No bound on the number of calls or on ChunkSize (the balancer keeps a position and a per-chunk count, both
-bounded by the list length resp. ChunkSize, so no Go `int` overflows; before the fix of D10 this held for the first
-2³² calls only, see `roundRobin_legacy_wrap_counterexample`). -/
-theorem roundRobin_cycle (parts : List Int) (hp : parts ≠ []) (ch : Int) (h1 : 1 ≤ ch) (n : Nat) :
+/-- For a fresh RoundRobin with `ChunkSize ≥ 1` on a fixed non-empty list, call number `j` (from 0) returns
+`parts[(j / ChunkSize) % |parts|]`: runs of ChunkSize calls on one partition, cycling through the list in order — for the
+first 2⁶⁴ calls (the call counter is a Go `uint64`; at one call per nanosecond that is 584 years, so the bound is an
+assumption about physics, recorded in the evidence; `roundRobin_wrap64_counterexample` shows what happens beyond).  No
+bound on ChunkSize.  The pinned tree counted in 32 bits: `roundRobin_legacy_wrap_counterexample` (finding D10). -/
+theorem roundRobin_cycle (parts : List Int) (hp : parts ≠ []) (ch : Int) (h1 : 1 ≤ ch) (n : Nat) (hn : n ≤ two64) :
     (RoundRobin.run (RoundRobin.fresh ch) parts n).2 = (List.range n).map (fun j => parts[(j / ch.toNat) % parts.length]?) := by
-  have := rr_run parts hp ch h1 n 0 (RoundRobin.fresh ch) (rrAt_fresh ch parts.length)
+  have := rr_run parts hp ch h1 n 0 (RoundRobin.fresh ch) rfl (fun _ => rfl) (by omega)
   simpa using this
 
 /-- the same from any point of the cycle: a balancer that is where `calls` calls leave it continues the cycle at call
-number `calls` — in particular across 2³² and 2⁶⁴ calls -/
-theorem roundRobin_cycle_from (parts : List Int) (hp : parts ≠ []) (ch : Int) (h1 : 1 ≤ ch) (calls n : Nat) :
+number `calls` — in particular across 2³² and 2⁶³ calls -/
+theorem roundRobin_cycle_from (parts : List Int) (hp : parts ≠ []) (ch : Int) (h1 : 1 ≤ ch) (calls n : Nat)
+    (hn : calls + n ≤ two64) :
     (RoundRobin.run (RoundRobin.placed ch calls parts.length) parts n).2 =
-      (List.range n).map (fun j => parts[((calls + j) / ch.toNat) % parts.length]?) :=
-  rr_run parts hp ch h1 n calls _ (rrAt_placed ch h1 calls parts.length)
+      (List.range n).map (fun j => parts[((calls + j) / ch.toNat) % parts.length]?) := by
+  have hlt : 0 < n → calls % two64 = calls := fun h => Nat.mod_eq_of_lt (by omega)
+  exact rr_run parts hp ch h1 n calls _ rfl (fun h => by simp [RoundRobin.placed, hlt h]) hn
 
-/-- the counters stay small: after any number of calls `count ≤ ChunkSize` and `index < |parts|` (no `int` overflow) -/
-theorem roundRobin_state_bounded (parts : List Int) (hp : parts ≠ []) (ch : Int) (h1 : 1 ≤ ch) (k : Nat) (rr : RoundRobin)
-    (hi : RRAt ch parts.length k rr) : rr.count ≤ ch ∧ rr.index < parts.length := by
-  obtain ⟨_, q, r, _, hr, hidx, hcnt⟩ := hi
-  have hL : 0 < parts.length := List.length_pos_iff.mpr hp
-  refine ⟨?_, by rw [hidx]; exact Nat.mod_lt _ hL⟩
-  rw [hcnt]; simp only [Int.ofNat_eq_natCast]; omega
+/-- one balancer shared by several topics (the Writer's default, the hash balancers' fallback for messages without key):
+whatever non-empty list each call is offered, the j-th call answers from the GLOBAL call number,
+`lists[j][(j / ChunkSize) % |lists[j]|]` — so the messages of every topic keep moving over all of its partitions (the
+position-keeping repair of D10 did not: `roundRobin_pos_starves_counterexample`). -/
+theorem roundRobin_shared (lists : List (List Int)) (hne : ∀ l ∈ lists, l ≠ []) (ch : Int) (h1 : 1 ≤ ch)
+    (hn : lists.length ≤ two64) (j : Nat) (hj : j < lists.length) :
+    ((RoundRobin.fresh ch).runVar lists)[j]? = some (lists[j][(j / ch.toNat) % lists[j].length]?) := by
+  have := rr_runVar ch h1 lists 0 (RoundRobin.fresh ch) rfl (fun _ => rfl) hne (by omega) j hj
+  simpa using this
 
 /-- every RoundRobin call returns an offered partition (any state, any chunk size) -/
 theorem roundRobin_offered (rr : RoundRobin) (parts : List Int) (hp : parts ≠ []) :
@@ -266,10 +270,9 @@ theorem roundRobin_offered (rr : RoundRobin) (parts : List Int) (hp : parts ≠ 
   unfold RoundRobin.balance
   simp only
   generalize (if rr.chunkSize < 1 then { rr with chunkSize := 1 } else rr) = rr1
-  generalize (if rr1.count ≥ rr1.chunkSize then { rr1 with count := 0, index := rr1.index + 1 } else rr1) = rr2
-  by_cases h : rr2.index ≥ parts.length
-  · simp only [h, if_true]; exact getElem?_mem_of_lt parts 0 hL
-  · simp only [h, if_false]; exact getElem?_mem_of_lt parts _ (by omega)
+  have hl : ¬ parts.length = 0 := by omega
+  simp only [hl, if_false]
+  exact getElem?_mem_of_lt parts _ (Nat.mod_lt _ hL)
 
 /-- … also when the partition list changes between calls (grows, shrinks in the middle of a chunk): the j-th answer
 is one of the partitions offered to the j-th call, from any state -/
@@ -290,15 +293,29 @@ theorem roundRobin_var_offered (lists : List (List Int)) (hne : ∀ l ∈ lists,
       exact ⟨p, by simpa using hp, by simpa using hm⟩
 
 /-- `ChunkSize < 1` behaves as `ChunkSize = 1` -/
-theorem roundRobin_chunk_default (c : Int) (hc : c < 1) (idx : Nat) (cnt : Int) (parts : List Int) :
-    (RoundRobin.balance ⟨c, idx, cnt⟩ parts).2 = (RoundRobin.balance ⟨1, idx, cnt⟩ parts).2 := by
+theorem roundRobin_chunk_default (c : Int) (hc : c < 1) (ctr : Nat) (parts : List Int) :
+    (RoundRobin.balance ⟨c, ctr⟩ parts).2 = (RoundRobin.balance ⟨1, ctr⟩ parts).2 := by
   simp [RoundRobin.balance, hc]
 
-/-- D10 (fixed): the former call-counter version failed at the 2³² wrap — with 3 partitions and ChunkSize 1 two
-consecutive calls returned the same partition; the current one continues the cycle there. -/
+/-- D10 (fixed): the 32-bit call counter of the pinned tree failed at the 2³² wrap — with 3 partitions and ChunkSize 1
+two consecutive calls returned the same partition; the current one continues the cycle there. -/
 theorem roundRobin_legacy_wrap_counterexample :
     (RoundRobinLegacy.run ⟨1, 4294967295⟩ [0, 1, 2] 2).2 = [some 0, some 0] ∧
     (RoundRobin.run (RoundRobin.placed 1 4294967295 3) [0, 1, 2] 2).2 = [some 0, some 1] := by decide
+
+/-- the first repair of D10 kept a position instead of the call number: alternating a 3-partition and a 5-partition
+topic through one balancer it never sends anything to partitions 1 of the first and 0, 2, 4 of the second; the current
+code visits them -/
+theorem roundRobin_pos_starves_counterexample :
+    let lists : List (List Int) := (List.range 12).map (fun j => if j % 2 = 0 then [0, 1, 2] else [0, 1, 2, 3, 4])
+    (RoundRobinPos.runVar ⟨1, 0, 0⟩ lists) =
+      [some 0, some 1, some 2, some 3, some 0, some 1, some 2, some 3, some 0, some 1, some 2, some 3] ∧
+    ((RoundRobin.fresh 1).runVar lists) =
+      [some 0, some 1, some 2, some 3, some 1, some 0, some 0, some 2, some 2, some 4, some 1, some 1] := by decide
+
+/-- beyond 2⁶⁴ calls the 64-bit counter wraps as the 32-bit one did (outside the hypothesis of `roundRobin_cycle`) -/
+theorem roundRobin_wrap64_counterexample :
+    (RoundRobin.run ⟨1, 18446744073709551615⟩ [0, 1, 2] 2).2 = [some 0, some 0] := by decide
 
 /-! ## 7. LeastBytes -/
 
